@@ -491,9 +491,13 @@ def tcp_history(exe, rng, idx):
         for _ in range(rng.randrange(1, 5)):
             r = rng.random()
             code = rng.choice([1, 1, 4, 12, 40])
+            # codes the proxy never acts on: a packet of such a code that fails parsing or authentication still ends the connection
+            other = rng.random() < 0.15
+            if other:
+                code = rng.choice([2, 3, 5, 11, 13, 41, 43, 44, 45, 0, 255])
             user = rng.choice([b"bob@example.org", b"al@nowhere", b"x"]) if code != 12 else False
             p = h.make_request(0, code=code, user=user, ident=rng.randrange(256), extra=[], pwd=False, with_ma=(rng.random() < 0.85))
-            if r < 0.12:
+            if r < 0.12 or (other and r < 0.6):
                 p = mutate(rng, p)
             elif r < 0.18:
                 p = p[:2] + bytes([0, rng.choice([0, 5, 19])]) + p[4:]     # impossible length field
@@ -512,6 +516,66 @@ def tcp_history(exe, rng, idx):
         if rng.random() < 0.3:
             h.send("writer " + rng.choice(names))
     return h.finish(kind="tcpconn", nconn=nconn)
+
+
+def loop_cancel_history(exe, rng, idx):
+    """a peer that is client and server under one name, loop prevention in effect: its own requests that would go back to it are held
+    back (they stay in its duplicate cache: a repeat is still a repeat) - and are later given up by the client side (identifier used
+    again with another authenticator, the association removed, DuplicateInterval over) while OTHER clients' requests - or the
+    status-server probe - hold identifiers at that server, the lowest ones first"""
+    cfg = W.rand_cfg(rng, rewrites=False, ttl=False, nclients=2, nservers=1, types=[rng.choice([0, 0, 2])])
+    a, b = cfg.clients
+    sv = cfg.servers[0]
+    a["name"] = sv["name"] = "peer0"
+    b["name"] = "cl1"
+    sv["loopprev"] = rng.choice([1, 1, 255])
+    cfg.opts["loopprev"] = 1 if sv["loopprev"] == 255 else rng.randrange(2)
+    cfg.opts["verifyeap"] = 0
+    sv.update(ss=rng.choice([0, 0, 1, 2]), rwin=None, rwout=None)
+    dup = rng.choice([5, 30, 255])
+    for c in cfg.clients:
+        c.update(rwin=None, rwout=None, rwuser=None, reqma=False, reqmap=False, dup=dup, dup_explicit=True)
+    cfg.realms = [dict(name=b"*", srv=[sv["name"]], acc=[sv["name"]], msg=None, accresp=False)]
+    h = Hist(exe, rng, cfg)
+    if not h.alive:
+        return h.finish(kind="cfg-crash")
+    h.client(a)
+    h.client(b)
+    ka = 0               # the association the peer itself has at the moment
+    if sv["ss"] and rng.random() < 0.7:      # the probe takes identifier 0
+        h.send("tick %d" % rng.choice([1, 30, 61]))
+        h.send("writer " + sv["name"])
+    for step in range(rng.randrange(6, 16)):
+        if h.s.dead:
+            break
+        r = rng.random()
+        if r < 0.3:      # the other client: forwarded, takes the next identifier
+            h.rq(1, h.make_request(1, code=rng.choice([1, 4]), user=b"bob@example.org", ident=rng.randrange(256), extra=[], pwd=False))
+            h.tag("forwarded")
+        elif r < 0.55:   # the peer itself: held back
+            ident = rng.choice([7, 7, 8, rng.randrange(256)])
+            h.rq(ka, h.make_request(ka, code=rng.choice([1, 4]), user=b"al@example.org", ident=ident, extra=[], pwd=False))
+            h.tag("held-back")
+        elif r < 0.62:
+            h.send("tick %d" % rng.choice([1, dup, dup + 1]))
+        elif r < 0.7:
+            h.send("writer " + sv["name"])
+        elif r < 0.75:
+            h.send("rmclient %d" % ka)
+            h.client(a)
+            ka = h.ncl - 1
+        elif r < 0.9 and h.outstanding:
+            ent = rng.choice(h.outstanding)
+            h.send("writer " + ent[0])
+            out = h.send("reply %s %s" % (ent[0], h.make_reply(ent, attrs=[(18, b"r")]).hex()))
+            if " q=r" in out:
+                h.outstanding.remove(ent)
+                h.tag("good-reply")
+        else:
+            h.send("pop %d" % rng.choice([ka, 1]))
+    h.send("pop %d" % ka)
+    h.send("pop 1")
+    return h.finish(kind="loop-cancel")
 
 
 def srvconn_history(exe, rng, idx):
@@ -555,6 +619,18 @@ def srvconn_history(exe, rng, idx):
             h.send("srvstate %s %d %d" % (rng.choice(names), rng.choice([2, 2, 3, 4]), rng.choice([0, 1, 5, 16])))
         elif r < 0.7:
             h.send("pop %d" % k)
+        elif r < 0.74 and len(h.outstanding) >= 2:
+            # a burst: the server answers several requests at once - one write (one TLS record) per reply, all of them on the connection
+            # before the reader gets to read the first
+            sv = h.outstanding[-1][0]
+            mine = [e for e in h.outstanding if e[0] == sv][:3]
+            h.send("writer " + sv)
+            evs = ["b"]
+            for ent in mine:
+                evs.append("w:" + h.make_reply(ent).hex())
+                h.outstanding.remove(ent)
+            h.send("srvconn %s %s" % (sv, " ".join(evs)))
+            h.tag("burst")
         elif r < 0.78 and h.outstanding:
             # the server owes answers and stays silent: the reader's timeout handler re-establishes the connection (status-server modes
             # other than off), after which the writer has to transmit again what is outstanding there
